@@ -34,7 +34,7 @@ def main():
         lines = [l for l in out.splitlines() if "test result" in l or "error" in l.lower()[:40]]
         return " | ".join(lines[-3:])[:400]
     if not a.skip_confirm:
-        sh("git checkout -- src", cwd=wt)
+        sh("git checkout -- src && git clean -fdq src", cwd=wt)
         rc, out = sh(demo_cmd, cwd=wt)
         clean_ok = "test result: ok" in out and "FAILED" not in out
         meta["demo_on_clean_tree"] = summ(out)
@@ -52,7 +52,7 @@ def main():
         rc, out = sh(demo_cmd, cwd=wt)
         demo_fails = "FAILED" in out or "test result: ok" not in out
         meta["demo_with_change"] = summ(out)
-        sh("git checkout -- src", cwd=wt)
+        sh("git checkout -- src && git clean -fdq src", cwd=wt)
         meta["confirmed"] = bool(clean_ok and suite_ok and all(builds.values()) and demo_fails)
         print("confirm: clean demo ok=%s suite ok=%s builds=%s demo fails with change=%s" % (clean_ok, suite_ok, builds, demo_fails))
     # run the checks against /repo with the patch applied
